@@ -42,26 +42,26 @@ def seeded():
     return buf.getvalue().strip()
 
 NOTES = {
- "C01": "covering arrays (pairwise quick / 3-wise thorough) + random points; extra content classes `break-even` (lengths around the point where 1 + compressed = input) and `litruns` (RLE literal-count boundaries) added after seeded changes C01-m1 / C03-m2; round 4: Unicode-case variants of added non-ASCII names as never-added lookups (after C01-r4m1)",
- "C02": "reference in Python (lib/refmpq.py); mismatches are re-extracted under named deviation models (full-path key, transformed dword tail) so that known deviations stay diagnosable and everything else stays strict; reference reader checks `compressed_size` == end of last sector (after C02-m1); direction B includes aligned, path-less, incompressible encrypted single-unit files larger than a sector (after C02-m3); quick runs the 144-configuration product once and 300 reference-written archives (since round 4); round 2: direction A archives carry break-even files (after C02-r2m1); the reference writer emits zlib streams with default / StormLib unit-sized window / varied level+window and bzip2 levels (after C02-r2m3); round 4: the reference writer emits sector checksums in the published layout and language ids in hash entries; direction A compares the hash-entry locale/platform fields (after C02-r4m1/m2)",
+ "C01": "covering arrays (pairwise quick / 3-wise thorough) + random points; extra content classes `break-even` (lengths around the point where 1 + compressed = input) and `litruns` (RLE literal-count boundaries) added after seeded changes C01-m1 / C03-m2; round 4: Unicode-case variants of added non-ASCII names as never-added lookups (after C01-r4m1); rounds 6-7: the order of the builder's attribute / checksum setters is part of every generated configuration (cfggen); a special file the archive carries must be listed (after C01-r7m3)",
+ "C02": "reference in Python (lib/refmpq.py); mismatches are re-extracted under named deviation models (full-path key, transformed dword tail) so that known deviations stay diagnosable and everything else stays strict; reference reader checks `compressed_size` == end of last sector (after C02-m1); direction B includes aligned, path-less, incompressible encrypted single-unit files larger than a sector (after C02-m3); quick runs the 144-configuration product once and 300 reference-written archives (since round 4); round 2: direction A archives carry break-even files (after C02-r2m1); the reference writer emits zlib streams with default / StormLib unit-sized window / varied level+window and bzip2 levels (after C02-r2m3); round 4: the reference writer emits sector checksums in the published layout and language ids in hash entries; direction A compares the hash-entry locale/platform fields (after C02-r4m1/m2); rounds 6-7: reference-written archives whose hash table has no free slot (1..16 entries in as many slots; after C02-r7m3) - exposed the unreadable zero-length entry at the archive end repaired in c21d07b",
  "C03": "added: a form that differs from the input must be strictly shorter (after C03-m1); `decompress_secure` is also called with file names ending in .mpq/.zip/.rar/.7z/.txt (after C03-m3); random (length, class) points and break-even inputs; round 2: four 0.7-2 MiB units per selector in every tier (codec block boundaries, after C03-r2m2); 560 repeated legacy `decompress` calls (>1 GiB cumulative) must keep answering identically (after C03-r2m3); stereo probes with loud onsets in left / right / both channels (after C03-r2m1); round 3: `tailz<k>` classes (sparse content ending in a non-zero byte + k zeros: the encoder's final run marker vs the decoder's clamp, after C03-r3m1); round 4: damaged streams are offered to the same selector between valid round trips on one thread (after C03-r4m2)",
  "C04": "the independent reference lives in the Rust harness (harness/vh-mpq/src/lib.rs) rather than Python — same independence, no data hand-over; Jenkins fold direction (upper/lower) accepted either way if consistent (the statement does not fix it; observed: upper); BET hashes are also read back from built V3/V4 archives; thorough additionally interprets the table case and 16 cipher-key cases (lengths 0..17, byte-wrapper tails) under Miri; round 2: byte wrappers are also run on sub-slices at every start alignment 0..7 of a larger buffer, with guard bytes (after C04-r2m3); round 3: hash widths 8..64 incl. non-multiples of 8 (after C04-r3m1); HET table images whose body is encrypted with `ArchiveBuilder::encrypt_data` are read back through `HetTable::read` for every body length mod 4 (the private table-body decryptor, after C04-r3m2); round 4: slice for the non-default `simd` feature — byte-string name hash incl. invalid UTF-8 around the vector thresholds at every alignment, CRC-32; ASan in thorough (after C04-r4m2)",
- "C05": "each batch of mutants runs in a forked child of the worker, so aborts are attributed to the exact mutant; signatures are keyed by in-repo site (not entry point); requests >= 256 MiB are refused by the counting allocator; MPQ seeds from ArchiveBuilder and from lib/refmpq.py (deleted markers, user-data prefix, PATCH_FILE entries); round 2: chunk ops with an unknown magic and sizes that are negative as i32 (after C05-r2m1); one seed per structure format followed by 1 MiB the format does not use, which exposed the WMO portal amplification repaired in c54d8a8 (after C05-r2m3); `Attributes::parse` / `parse_listfile` driven directly on independently encoded payloads (after C05-r2m4); round 4: stage F (thorough) = coverage-guided input generation with libFuzzer+ASan over the same drivers, every kept input and artifact replayed natively under the monitors; drivers call the remaining public readers of every crate (entry points 32 -> 150: embedded skins, enhanced data, lazy/parallel/mmap/discovery DBC paths, validators, writers and converters on parsed mutants, PatchChain / MutableArchive / ParallelArchive / rebuild / compare on every MPQ mutant, header/table readers, slice-level decoders as format `mpq-raw`); short declared tables are never thinned out by the offset cap (after C05-r4m3)",
+ "C05": "each batch of mutants runs in a forked child of the worker, so aborts are attributed to the exact mutant; signatures are keyed by in-repo site (not entry point); requests >= 256 MiB are refused by the counting allocator; MPQ seeds from ArchiveBuilder and from lib/refmpq.py (deleted markers, user-data prefix, PATCH_FILE entries); round 2: chunk ops with an unknown magic and sizes that are negative as i32 (after C05-r2m1); one seed per structure format followed by 1 MiB the format does not use, which exposed the WMO portal amplification repaired in c54d8a8 (after C05-r2m3); `Attributes::parse` / `parse_listfile` driven directly on independently encoded payloads (after C05-r2m4); round 4: stage F (thorough) = coverage-guided input generation with libFuzzer+ASan over the same drivers, every kept input and artifact replayed natively under the monitors; drivers call the remaining public readers of every crate (entry points 32 -> 150: embedded skins, enhanced data, lazy/parallel/mmap/discovery DBC paths, validators, writers and converters on parsed mutants, PatchChain / MutableArchive / ParallelArchive / rebuild / compare on every MPQ mutant, header/table readers, slice-level decoders as format `mpq-raw`); short declared tables are never thinned out by the offset cap (after C05-r4m3); rounds 6-7: MPQ seeds with the user-data header's size / pointer at boundary values alone and together (after C05-r7m1)",
  "C06": "read-your-writes is observed, not judged; five history-level trigger predicates carry the known findings; refused additions count towards block-table growth; opens and drops are trapped; round 2: a storm of confirmed hangs ends the run after 8 (sup.run_workers), so a non-terminating lookup (C06-r2m2) is reported in ~35 min instead of hours; round 4: additions that fail after the lookup (a selector the compressor refuses), a name that is a substring of another, archives behind a prefix with several sessions (after C06-r4m1, and two genuine defects of the unchanged tree)",
  "C07": "sources include zero-length, multi-sector, mixed-encryption and break-even files; CLI `mpq rebuild/compare` sampling moved to C20; round 2: every third source carries a `(signature)` entry and `skip_signatures` is varied; a `verify=true` error is re-checked against the same rebuild without verify + the independent comparison (`verify-rejects-faithful-rebuild`, after C07-r2m3); round 3: the bytes given to the builder are the truth for target content (the library's own reading of the source is only the fallback), every fourth source sits behind a 512-aligned prefix (after C07-r3m2); listfile layouts `not-listing-itself` (StormLib) and `encrypted` (after C07-r3m3) — these exposed the verify_rebuild count defect repaired in bd159e8; round 4: sources with a damaged member (counts must stay within what the source can deliver, dry run included), sources extended in place with rooted names (after C07-r4m2/m3)",
  "C08": "PTCH/BSD0 encoder, RLE (4 styles) and bsdiff apply written in Python inside lib/props/c08.py, self-checked against the repo's hand-made test patches; corrupted variants that can abort the process are isolated one per case; round 4: non-ASCII names, loads that fail part-way on all three load paths (membership taken from the chain's own answer), histories over chains with patch entries where archives come and go between reads (after C08-r4m1..m3)",
- "C09": "nshards=4 (each worker runs pools of up to 32 threads + 4 stress threads); interleaved-duplicate request shapes added to expose a racy memo; CLI half not built; round 2: `generations-at-one-path` cases: the archive is rebuilt in place three times between fresh parallel opens on the same pools (after C09-r2m3); round 3: a second user thread calls the same `Arc<ParallelArchive>` (failing or valid requests) while the main thread's valid calls are compared slot by slot (after C09-r3m1); round 4: batch sizes 1<<40 and usize::MAX; a long-lived ParallelArchive across transient faults (archive moved away and back, no file descriptor available) (after C09-r4m2/m3)",
- "C10": "paired corruptions (checksum zeroed + data flipped; attribute forged to match) added to the single flips; probes of size-bearing regions and C-API probes run in a forked child under an address-space limit; crashes on corrupted input are tallied for C05, not judged here; round 4: SFileVerifyArchive(ALL_FILES) as a verifier of its own, user files with special-looking names, a zero-length file under attributes, signed archives followed by foreign bytes (after C10-r4m1..m3)",
- "C11": "no Rust worker; names that would leave /verif/scratch if honoured are never generated; grammar extended with leading `.` components and doubled separators (after C11-m3); round 2: names that continue the directory of a benign entry written just before them and then climb out, plus a benign entry that sorts in front of them (after C11-r2m2); round 4: names that a delete-`../`-once sanitiser turns into climbing paths; the containment gate knows the sanitised forms (after C11-r4m2)",
+ "C09": "nshards=4 (each worker runs pools of up to 32 threads + 4 stress threads); interleaved-duplicate request shapes added to expose a racy memo; CLI half not built; round 2: `generations-at-one-path` cases: the archive is rebuilt in place three times between fresh parallel opens on the same pools (after C09-r2m3); round 3: a second user thread calls the same `Arc<ParallelArchive>` (failing or valid requests) while the main thread's valid calls are compared slot by slot (after C09-r3m1); round 4: batch sizes 1<<40 and usize::MAX; a long-lived ParallelArchive across transient faults (archive moved away and back, no file descriptor available) (after C09-r4m2/m3); rounds 6-7: reference answers taken with a fresh handle on a fresh thread when the used thread disagrees, the disagreement is a violation of its own (after C09-r6m1); an archive whose listfile names half of its members (after C09-r7m2)",
+ "C10": "paired corruptions (checksum zeroed + data flipped; attribute forged to match) added to the single flips; probes of size-bearing regions and C-API probes run in a forked child under an address-space limit; crashes on corrupted input are tallied for C05, not judged here; round 4: SFileVerifyArchive(ALL_FILES) as a verifier of its own, user files with special-looking names, a zero-length file under attributes, signed archives followed by foreign bytes (after C10-r4m1..m3); rounds 6-7: the single-unit file is also one byte short of / exactly one sector long (after C10-r3m3)",
+ "C11": "no Rust worker; names that would leave /verif/scratch if honoured are never generated; grammar extended with leading `.` components and doubled separators (after C11-m3); round 2: names that continue the directory of a benign entry written just before them and then climb out, plus a benign entry that sorts in front of them (after C11-r2m2); round 4: names that a delete-`../`-once sanitiser turns into climbing paths; the containment gate knows the sanitised forms (after C11-r4m2); rounds 6-7: names no archive holds and files already standing where a hostile name would lead (after C11-r7m3 / C11-r3m2); every eighth archive has 1100 ordinary entries (after C11-r3m1), every eighth one an entry over 4 MiB (after C11-r5m3)",
  "C12": "strace `when=` is per syscall name (see §3 M5); fault set extended with copy_file_range/sendfile/fchmod/fallocate; two-fault sequences; both tiers enumerate every k; round 2: the compact scenarios hold two multi-sector members (per-sector seeks during compaction, after C12-r2m3); round 3: `compact-v1/v2-pending` scenarios: a file is added and removed again without flush before compact, so the session is dirty when a failed compact is dropped (after C12-r3m1); round 4: destination as a symbolic link / with a name ending in .tmp, C-API creation scenarios through vh-ffi/c12_ffi (after C12-r4m1..m3)",
- "C13": "risk=<predicate> signatures for cases built to carry one known trigger; anim ids from a tiny id space / rotated index entries (after C13-m2); round 2: tracks may share timestamp / value arrays inside a section (`m2-shared` family, after C13-r2m1); `num_skin_profiles` compared across conversions whenever both versions carry it (after C13-r2m3); round 4: header revisions between the canonical versions (257-259, 261, 263, 265, 271), events with ranges but no time stamps (after C13-r4m2/m3)",
- "C14": "three harness-encoded seed variants provide prototype objects; MCIN size convention accepted either way if consistent; round 2: edit stage parse -> modify sub-chunks -> `from_root_adt` -> serialise -> walk -> parse (after C14-r2m1); MMID/MWID entries must address the start of name i, names include multi-byte UTF-8 (after C14-r2m2); MCLQ height-range classes incl. min == max (after C14-r2m3); round 4: tiles saved with write_to_file to a fresh path and over a longer / shorter file (after C14-r4m1)",
- "C15": "legacy group types are struct literals (no Default, no working parser); every case carried a known finding before the repairs, so the worker journals its own samples; round 2: one list at a time gets 4096 / 4097 / >4097 elements (after C15-r2m2); round 4: conversions through an editor session (load, convert_to_version, save_group) incl. the later file versions, compared with the direct conversion path (after C15-r4m3)",
- "C16": "raw1 additionally requires decoded colour == palette[stored index]; round 2: every lower mip level of raw1/raw3 chains is decoded and held to resampling-independent laws (palette membership, representable alpha, alpha within the source range for non-negative filters; after C16-r2m2); round 4: textures that need all 16 mipmap locator entries (32768x1, 1x40000) (after C16-r4m1)",
- "C17": "seven access paths incl. cached and mmap-lazy; four valid string-block layouts from the independent encoder; round 2: six write histories on one stream (twice, smaller-then-full, positioned inside / at end / past end, parsed-then-rewritten file handle; after C17-r2m3); round 4: every fifth table lives in a file that goes on behind the string block (after C17-r4m2)",
- "C18": "`range` clause (index <= 63 at the outermost edge) added to corner and centre; round 2: MAID relation axis (exact / partial / all-zero / ids for absent tiles) and two-step conversion chains over all version pairs (after C18-r2m1); round 4: non-ASCII model names, WDL load-edit-save stage (after C18-r4m2/m3)",
- "C19": "30 exported functions; calls that cannot return on a given tree are probed on a helper thread; Miri slice of 16 short histories in thorough; round 4: the single-thread histories also run on a build with overflow checks and debug assertions (after C19-r4m3)",
- "C20": "facts (counts / enumerable sets) from the library object each sub-command prints from are compared with the output; overwrite and unwritable-name slices (after C20-m1/m2); round 2: library-built archives with 1010 / 1026 (thorough: 2049, 5013) entries extracted with and without preserved paths (after C20-r2m1); `blp validate --strict` judged against a model of what strict promises, seeds with exactly one non-power-of-two dimension (after C20-r2m2); round 4: inputs whose base names coincide, loads-but-invalid M2 inputs, `blp convert` at other mipmap levels (after C20-r4m1..m3)",
+ "C13": "risk=<predicate> signatures for cases built to carry one known trigger; anim ids from a tiny id space / rotated index entries (after C13-m2); round 2: tracks may share timestamp / value arrays inside a section (`m2-shared` family, after C13-r2m1); `num_skin_profiles` compared across conversions whenever both versions carry it (after C13-r2m3); round 4: header revisions between the canonical versions (257-259, 261, 263, 265, 271), events with ranges but no time stamps (after C13-r4m2/m3); rounds 6-7: lists longer than the pre-allocation caps (after C13-r3m1); parse -> empty one list -> write -> parse (after C13-r3m2)",
+ "C14": "three harness-encoded seed variants provide prototype objects; MCIN size convention accepted either way if consistent; round 2: edit stage parse -> modify sub-chunks -> `from_root_adt` -> serialise -> walk -> parse (after C14-r2m1); MMID/MWID entries must address the start of name i, names include multi-byte UTF-8 (after C14-r2m2); MCLQ height-range classes incl. min == max (after C14-r2m3); round 4: tiles saved with write_to_file to a fresh path and over a longer / shorter file (after C14-r4m1); rounds 6-7: water tables dry on every chunk (after C14-r7m3); MCRD / MCRW reference layout (after C14-r3m3)",
+ "C15": "legacy group types are struct literals (no Default, no working parser); every case carried a known finding before the repairs, so the worker journals its own samples; round 2: one list at a time gets 4096 / 4097 / >4097 elements (after C15-r2m2); round 4: conversions through an editor session (load, convert_to_version, save_group) incl. the later file versions, compared with the direct conversion path (after C15-r4m3); rounds 6-7: WmoEditor add / remove histories judged by a tally (after C15-r6m1); shadow-batch bits across same-layout conversions (after C15-r6m2); write_group into streams holding data in front of / behind the writer (after C15-r6m3, C15-r3m3)",
+ "C16": "raw1 additionally requires decoded colour == palette[stored index]; round 2: every lower mip level of raw1/raw3 chains is decoded and held to resampling-independent laws (palette membership, representable alpha, alpha within the source range for non-negative filters; after C16-r2m2); round 4: textures that need all 16 mipmap locator entries (32768x1, 1x40000) (after C16-r4m1); rounds 6-7: one rounding rule per image for stored alpha levels (after C16-r6m3)",
+ "C17": "seven access paths incl. cached and mmap-lazy; four valid string-block layouts from the independent encoder; round 2: six write histories on one stream (twice, smaller-then-full, positioned inside / at end / past end, parsed-then-rewritten file handle; after C17-r2m3); round 4: every fifth table lives in a file that goes on behind the string block (after C17-r4m2); rounds 6-7: LazyRecordIterator driven through next / nth / skip / take / step_by / size_hint / count programs (after C17-r6m2)",
+ "C18": "`range` clause (index <= 63 at the outermost edge) added to corner and centre; round 2: MAID relation axis (exact / partial / all-zero / ids for absent tiles) and two-step conversion chains over all version pairs (after C18-r2m1); round 4: non-ASCII model names, WDL load-edit-save stage (after C18-r4m2/m3); rounds 6-7: files loaded with the auto-detecting WDL parser are saved as the version they report and compared with the file (after C18-r3m1) - exposed the Vanilla label on WMO-era files repaired in 574b801",
+ "C19": "30 exported functions; calls that cannot return on a given tree are probed on a helper thread; Miri slice of 16 short histories in thorough; round 4: the single-thread histories also run on a build with overflow checks and debug assertions (after C19-r4m3); rounds 6-7: probes replacing / renaming a file under an open handle (after C19-r6m1), SFileCloseArchive while no write can succeed (RLIMIT_FSIZE around the one call, after C19-r6m2), fixture with names beyond ASCII across the 259-byte find-record limit (after C19-r6m3)",
+ "C20": "facts (counts / enumerable sets) from the library object each sub-command prints from are compared with the output; overwrite and unwritable-name slices (after C20-m1/m2); round 2: library-built archives with 1010 / 1026 (thorough: 2049, 5013) entries extracted with and without preserved paths (after C20-r2m1); `blp validate --strict` judged against a model of what strict promises, seeds with exactly one non-power-of-two dimension (after C20-r2m2); round 4: inputs whose base names coincide, loads-but-invalid M2 inputs, `blp convert` at other mipmap levels (after C20-r4m1..m3); rounds 6-7: bracket-pattern and symbolic-link inputs (after C20-r6m1, C20-r5m3); --filter against a glob model with derived filters (after C20-r6m2); list --long rows (after C20-r3m3); global options on failing commands (after C20-r3m1); every report also into /dev/full (after C20-r5m1, C20-r7m3) - exposed the swallowed table-output errors repaired in 9ba507c; validate with 0/1/256/257 unreadable members (after C20-r5m2); explicit names through a patch chain (after C20-r7m2); 5003-entry archive (after C20-r7m1)",
 }
 
 
